@@ -26,4 +26,4 @@ CHECK = {'level': 'exploration',
  'engines': [{'src': 'pbt/C09_names.cpp',
               'args': ['--workers-quick', str(_WQ), '--workers-thorough', str(_WT)],
               'quick': {'workers': _WQ, 'cases': 400, 'size': 100},
-              'thorough': {'workers': _WT, 'cases': 12000, 'size': 100}}]}
+              'thorough': {'workers': _WT, 'cases': 8000, 'size': 100}}]}
